@@ -59,8 +59,68 @@ def fields (x : B) : List B := fieldsAux x []
 /-- `strings.Trim(x, "/")` -/
 def trimSlashes (x : B) : B := ((x.dropWhile (· = '/')).reverse.dropWhile (· = '/')).reverse
 
-def upperC (c : Char) : Char := if 'a' ≤ c ∧ c ≤ 'z' then Char.ofNat (c.toNat - 32) else c
-def lowerC (c : Char) : Char := if 'A' ≤ c ∧ c ≤ 'Z' then Char.ofNat (c.toNat + 32) else c
+/-- ASCII upper-casing of one byte (`strings.ToUpper` / `unicode.ToUpper` on ASCII input) -/
+def upperC (c : Char) : Char :=
+  match c with
+  | 'a' => 'A'
+  | 'b' => 'B'
+  | 'c' => 'C'
+  | 'd' => 'D'
+  | 'e' => 'E'
+  | 'f' => 'F'
+  | 'g' => 'G'
+  | 'h' => 'H'
+  | 'i' => 'I'
+  | 'j' => 'J'
+  | 'k' => 'K'
+  | 'l' => 'L'
+  | 'm' => 'M'
+  | 'n' => 'N'
+  | 'o' => 'O'
+  | 'p' => 'P'
+  | 'q' => 'Q'
+  | 'r' => 'R'
+  | 's' => 'S'
+  | 't' => 'T'
+  | 'u' => 'U'
+  | 'v' => 'V'
+  | 'w' => 'W'
+  | 'x' => 'X'
+  | 'y' => 'Y'
+  | 'z' => 'Z'
+  | _ => c
+
+/-- ASCII lower-casing of one byte -/
+def lowerC (c : Char) : Char :=
+  match c with
+  | 'A' => 'a'
+  | 'B' => 'b'
+  | 'C' => 'c'
+  | 'D' => 'd'
+  | 'E' => 'e'
+  | 'F' => 'f'
+  | 'G' => 'g'
+  | 'H' => 'h'
+  | 'I' => 'i'
+  | 'J' => 'j'
+  | 'K' => 'k'
+  | 'L' => 'l'
+  | 'M' => 'm'
+  | 'N' => 'n'
+  | 'O' => 'o'
+  | 'P' => 'p'
+  | 'Q' => 'q'
+  | 'R' => 'r'
+  | 'S' => 's'
+  | 'T' => 't'
+  | 'U' => 'u'
+  | 'V' => 'v'
+  | 'W' => 'w'
+  | 'X' => 'x'
+  | 'Y' => 'y'
+  | 'Z' => 'z'
+  | _ => c
+
 def toUpper (x : B) : B := x.map upperC
 def toLower (x : B) : B := x.map lowerC
 
